@@ -388,6 +388,13 @@ func c11Oracle(x *dialogx) func(c *dcase, r *drun, base *drun) {
 				return
 			}
 		}
+		for _, t := range r.trans {
+			if t.Class == sim.ClSessionConf && strings.HasPrefix(t.Text, "terminal width") {
+				x.violation(c, r, "compare-read-only", "compare-sent:"+sc.devType+":"+t.Class+":"+cmdKey(t.Text),
+					fmt.Sprintf("compare run sent %q in configuration mode [%s]", t.Text, t.Class))
+				break // known finding; the state checks below still apply
+			}
+		}
 		if r.before != r.after {
 			x.violation(c, r, "state-unchanged", "compare-changed-state:"+sc.devType, "device state differs after a compare run")
 			return
@@ -466,7 +473,7 @@ func init() {
 	}, 170*time.Second, 40*time.Minute)
 	registerSharded("C11", c11Worker, func(tier string) core.Meta {
 		return core.Meta{ID: "C11", Level: "fault_enumeration",
-			Rule: "compare dialogues: 5 device types x {drc -C -L dir, drc -C without log directory, do-approve compare} x interlock variants {ok, missing marker, wrong hostname, unknown interface (ASA/IOS), foreign non-Netspoc objects (NSX)}, all with non-empty differences; baseline plus every single deviation at every point (thorough: all ordered pairs); oracle: the transcript contains no config-changing, save/commit or reload-control line (only exception by classification: ASA 'configure terminal / terminal width 511 / end' before 'write term'), the device model state and the foreign objects are identical before and after; non-trivial = runs with a deviation",
+			Rule: "compare dialogues: 5 device types x {drc -C -L dir, drc -C without log directory, do-approve compare} x interlock variants {ok, missing marker, wrong hostname, unknown interface (ASA/IOS), foreign non-Netspoc objects (NSX)}, all with non-empty differences; baseline plus every single deviation at every point (thorough: all ordered pairs); oracle: the transcript contains no config-changing, save/commit or reload-control line (ASA 'configure terminal / terminal width 511 / end' before 'write term' is reported as finding F-C11-asa-terminal-width), the device model state and the foreign objects are identical before and after; non-trivial = runs with a deviation",
 			Assumptions: []string{"transcript classification is done by the simulator from device semantics (DESIGN appendix C)"},
 			Bounds:      map[string]any{"quick": "single deviations", "thorough": "pairs"},
 		}
